@@ -73,6 +73,26 @@ type Wrap struct {
 	Tag string
 }
 
+// Group / Team: slices of structs that themselves hold slices of structs (nested reflection paths).
+type Group struct {
+	Title   string
+	Members []Leaf
+}
+
+type Team struct {
+	Groups []Group
+	Ptrs   []*Group
+}
+
+// Counts has unsigned and signed integer leaves (navigated, never compared: their JSON twin is a float).
+type Counts struct {
+	U   uint
+	U8  uint8
+	I   int
+	Us  []uint16
+	Tag string
+}
+
 // Dz has a field whose first letter has a title case (ǅ) different from its upper case (Ǆ).
 type Dz struct {
 	Ǆep  string
@@ -298,6 +318,10 @@ func checkC18(r *harness.Run) harness.Coverage {
 			Pair{A: Wrap{&Leaf{"x", 1, true}, "t"}, B: Wrap{&Leaf{"x", 1, true}, "t"}, Ws: []Wrap{{&Leaf{"x", 1, true}, "t"}, {&Leaf{"y", 2, false}, "t"}, {nil, ""}}},
 			&Pair{A: Wrap{&Leaf{"x", 1, true}, "t"}, B: Wrap{&Leaf{"x", 2, true}, "t"}, Ws: []Wrap{}},
 			Dz{"dz", 8, "n"}, &Dz{"", 0, ""},
+			Team{Groups: []Group{{"g1", []Leaf{{"a0", 0, true}, {"a1", 1, false}, {"a2", 2, true}}}, {"g2", []Leaf{{"b0", 0, true}, {"b1", 1, true}}}, {"g3", []Leaf{}}},
+				Ptrs: []*Group{{"p1", []Leaf{{"c0", 0, false}, {"c1", 1, true}}}, nil}},
+			&Counts{3, 4, -5, []uint16{1, 2}, "c"},
+			&EmbP{nil, 3}, []*EmbP{{nil, 1}, {&Meta{2, "l"}, 2}},
 			// a generic map holding Go structs and pointers to structs
 			map[string]interface{}{"Name": "holder", "Repo": Leaf{"s", 7, true}, "Kids": []interface{}{&Leaf{"p", 1, false}, Leaf{"q", 2, true}}, "ID": &Meta{9, "m"}},
 			// generic containers holding typed slices
@@ -316,6 +340,10 @@ func checkC18(r *harness.Run) harness.Coverage {
 			"Kids[0]", "Kids[2][0]", "Kids[]", "Kids[*][0]", "ID[0]",
 			// comparisons of whole Go values of the same type (filter conditions compare what navigation returns)
 			"\"Ǆep\"", "\"Ǉub\"", "[\"Ǆep\", Name]", "Repo.S", "Repo.N", "Kids[*].S", "Kids[1].N", "ID.Label", "Kids[?B].S", "Repo",
+			"Groups[:].Members[:].S", "Groups[*].Members[*].S", "Groups[:].Members[1:].N", "Groups[].Members[].S", "Groups[::-1].Members[::-1].S", "Ptrs[:].Members[:].S", "Groups[:2].Members[:2].S",
+			"Groups[?Members].Title", "Groups[*].Members[?B].S", "length(Groups[0].Members)", "Groups[*].Title",
+			"U", "U8", "I", "Us", "Us[0]", "[U, I, Tag]", "{u: U, t: Tag}", "length(Us)", "Us[::-1]", "Tag || U",
+			"Score", "[ID, Score]", "[*].ID", "[*].Score", "[?Score > `1`].Label", "[1].Label",
 			"A == B", "A != B", "A.In == B.In", "Ws[?@ == A].Tag", "Ws[0] == A", "Ws[1] == A", "Ws[?In.S == 'x'].Tag", "Ws[?In.N > `1`].In.S", "A.In.S == B.In.S", "[A == B, A.Tag == B.Tag]", "Ws[2].In == `null`"} {
 			embExprs = append(embExprs, [2]string{e, e}, [2]string{lowerFirst(univ.Lx(e)), e})
 		}
@@ -438,9 +466,22 @@ func checkC18(r *harness.Run) harness.Coverage {
 		}
 		for di := ei % step; di < len(docs); di += step {
 			d := docs[di]
-			for _, doc := range []interface{}{d, &d} {
+			for vi, doc := range []interface{}{d, &d} {
+				var before snap.Digest
+				if vi == 1 {
+					before = snap.Roots{{Name: "doc", V: doc}}.Hash()
+				}
 				_, _, gpn := impl.Search(jp, doc)
 				atomic.AddInt64(&calls, 1)
+				if vi == 1 && gpn == nil {
+					if after := (snap.Roots{{Name: "doc", V: doc}}).Hash(); after != before {
+						js, _ := json.Marshal(docs[di])
+						r.Report(harness.Violation{Kind: "doc-mutated", Signature: "go-document-modified:" + text,
+							Input:    map[string]interface{}{"expression": text, "document_json_before": string(js)},
+							Expected: "Search does not modify a Go-typed document", Observed: "deep snapshot of the Go value (reached through a pointer) differs after the call: " + strings.Join(snap.Lines2(doc), "; ")})
+						return
+					}
+				}
 				if gpn != nil {
 					js, _ := json.Marshal(d)
 					r.Report(harness.Violation{Kind: "panic", Signature: "search-panic:" + gpn.Site + ":" + gpn.Class,
